@@ -104,6 +104,9 @@ func writeEvidence(id, tier string, seed uint64, p *propInfo, a *aggregate, det 
 	if len(a.extra) > 0 {
 		cov["counters"] = a.extra
 	}
+	if len(a.skips) > 0 {
+		cov["skipped_run_reasons"] = a.skips
+	}
 	if len(a.scheds) > 0 {
 		cov["schedules_distinct"] = len(a.scheds)
 		cov["schedules_measure"] = "distinct hashes of the (task, yield site) sequence of a concurrent block"
